@@ -134,6 +134,7 @@ func (db *GoLevelDB) Get(key []byte) ([]byte, error) {
 
 // Set set
 func (db *GoLevelDB) Set(key []byte, value []byte) error {
+	verifCrashPoint("set", 1)
 	err := db.db.Put(key, value, nil)
 	if err != nil {
 		llog.Error("Set", "error", err)
@@ -144,6 +145,7 @@ func (db *GoLevelDB) Set(key []byte, value []byte) error {
 
 // SetSync 同步
 func (db *GoLevelDB) SetSync(key []byte, value []byte) error {
+	verifCrashPoint("setsync", 1)
 	err := db.db.Put(key, value, &opt.WriteOptions{Sync: true})
 	if err != nil {
 		llog.Error("SetSync", "error", err)
@@ -154,6 +156,7 @@ func (db *GoLevelDB) SetSync(key []byte, value []byte) error {
 
 // Delete 删除
 func (db *GoLevelDB) Delete(key []byte) error {
+	verifCrashPoint("delete", 1)
 	err := db.db.Delete(key, nil)
 	if err != nil {
 		llog.Error("Delete", "error", err)
@@ -164,6 +167,7 @@ func (db *GoLevelDB) Delete(key []byte) error {
 
 // DeleteSync 删除同步
 func (db *GoLevelDB) DeleteSync(key []byte) error {
+	verifCrashPoint("deletesync", 1)
 	err := db.db.Delete(key, &opt.WriteOptions{Sync: true})
 	if err != nil {
 		llog.Error("DeleteSync", "error", err)
@@ -550,6 +554,7 @@ func (mBatch *goLevelDBBatch) Delete(key []byte) {
 }
 
 func (mBatch *goLevelDBBatch) Write() error {
+	verifCrashPoint("batch", mBatch.len)
 	err := mBatch.db.db.Write(mBatch.batch, mBatch.wop)
 	if err != nil {
 		llog.Error("Write", "error", err)
@@ -582,6 +587,7 @@ type goLevelDBTx struct {
 }
 
 func (db *goLevelDBTx) Commit() error {
+	verifCrashPoint("txcommit", 0)
 	return db.tx.Commit()
 }
 
